@@ -315,6 +315,12 @@ class CompiledModule(CompiledValue):
     def py__file__(self) -> Optional[Path]:
         return self.access_handle.py__file__()  # type: ignore[no-any-return]
 
+    def get_signatures(self):
+        # A module cannot be called. Without this the "parameters" are parsed
+        # out of the first parenthesis of the module's docstring and have no
+        # parent context.
+        return []
+
 
 class CompiledName(AbstractNameDefinition):
     def __init__(self, inference_state, parent_value, name, is_descriptor):
